@@ -152,7 +152,9 @@ class Maximizer(FormulaStep):
         """
         val2 = eval_stack.pop()
         val1 = eval_stack.pop()
-        res = max(val1, val2)
+        # `max` drops a NaN operand depending on the operand order, but a missing
+        # input has to make the result missing.
+        res = math.nan if math.isnan(val1) or math.isnan(val2) else max(val1, val2)
         eval_stack.append(res)
 
 
@@ -175,7 +177,9 @@ class Minimizer(FormulaStep):
         """
         val2 = eval_stack.pop()
         val1 = eval_stack.pop()
-        res = min(val1, val2)
+        # `min` drops a NaN operand depending on the operand order, but a missing
+        # input has to make the result missing.
+        res = math.nan if math.isnan(val1) or math.isnan(val2) else min(val1, val2)
         eval_stack.append(res)
 
 
